@@ -141,6 +141,22 @@ struct FinInfo {
     chain: Vec<usize>,
 }
 
+/// Boundary of one state-changing API call (commit, overlay commit, rollback, open): reported to an
+/// optional process-global observer (used by the crash / fault checks to arm the I/O hook for exactly
+/// one operation and to learn the oracle's state before and after it).
+pub struct OpInfo<'m> {
+    pub index: usize,
+    pub starting: bool,
+    pub what: &'m str,
+    pub committed: &'m Map,
+    pub seqn: u32,
+    pub alive: bool,
+    pub poisoned: bool,
+    pub oracle_failures: &'m [String],
+}
+pub type OpObserver = Box<dyn FnMut(&OpInfo<'_>) + Send>;
+pub static OP_OBSERVER: std::sync::Mutex<Option<OpObserver>> = std::sync::Mutex::new(None);
+
 pub struct Engine<'a> {
     pub rng: Rng,
     pub out: &'a mut Sink,
@@ -160,6 +176,8 @@ pub struct Engine<'a> {
     pub scale: usize,
     pub always_preserve: bool,
     pub no_dread: bool,
+    pub keep_dir: bool,
+    pub op_index: usize,
     pub events: BTreeMap<String, u64>,
 }
 
@@ -188,6 +206,8 @@ impl<'a> Engine<'a> {
             scale: 1,
             always_preserve: false,
             no_dread: false,
+            keep_dir: false,
+            op_index: 0,
             events: BTreeMap::new(),
         };
         e.pool = gen_keyset(&mut e.rng, 40);
@@ -237,6 +257,41 @@ impl<'a> Engine<'a> {
 
     pub fn alive(&self) -> bool {
         self.db.is_some()
+    }
+
+    fn op_boundary(&mut self, starting: bool, what: &str) {
+        let mut g = OP_OBSERVER.lock().unwrap();
+        if let Some(f) = g.as_mut() {
+            let info = OpInfo {
+                index: self.op_index,
+                starting,
+                what,
+                committed: &self.committed,
+                seqn: self.seqn,
+                alive: self.db.is_some(),
+                poisoned: self.db.as_ref().map_or(false, |d| d.is_poisoned()),
+                oracle_failures: &self.out.oracle_failures,
+            };
+            f(&info);
+        }
+        drop(g);
+        if !starting {
+            self.op_index += 1;
+        }
+    }
+
+    /// oracle view of the committed state (for the crash / fault checks)
+    pub fn committed_snapshot(&self) -> (Map, u32) {
+        (self.committed.clone(), self.seqn)
+    }
+
+    pub fn is_poisoned(&self) -> bool {
+        self.db.as_ref().map_or(false, |d| d.is_poisoned())
+    }
+
+    /// leave the directory on disk (crash children exit without cleaning up)
+    pub fn forget_dir(&mut self) {
+        self.keep_dir = true;
     }
 
     fn db(&self) -> &Db {
@@ -582,6 +637,7 @@ impl<'a> Engine<'a> {
         let cur_root = self.db().root().into_inner();
         let expect_ok = cur_root == self.fins[fid].prev_root;
         let op = format!("{} {}", if nonblocking { "trycommit" } else { "commit" }, fid);
+        self.op_boundary(true, "commit");
         let r = catch_unwind(AssertUnwindSafe(|| {
             if nonblocking {
                 fin.try_commit_nonblocking(self.db()).map(|o| o.is_none())
@@ -629,6 +685,7 @@ impl<'a> Engine<'a> {
                 self.db = None;
             }
         }
+        self.op_boundary(false, "commit");
         self.check_committed("commit");
     }
 
@@ -796,6 +853,7 @@ impl<'a> Engine<'a> {
         let expect_ok = self.ovs[oid].parent.map_or(true, |p| self.last_marker == Some(p))
             && self.ovs[oid].base_root == self.db().root().into_inner();
         let op = format!("{} {}", if nonblocking { "otrycommit" } else { "ocommit" }, oid);
+        self.op_boundary(true, "overlay-commit");
         let r = catch_unwind(AssertUnwindSafe(|| {
             if nonblocking {
                 ov.try_commit_nonblocking(self.db()).map(|o| o.is_none())
@@ -836,6 +894,7 @@ impl<'a> Engine<'a> {
                 self.db = None;
             }
         }
+        self.op_boundary(false, "overlay-commit");
         self.check_committed("overlay commit");
     }
 
@@ -915,6 +974,7 @@ impl<'a> Engine<'a> {
         }
         let expect_ok = n == 0 || (self.cfg.rollback && n <= self.snaps.len());
         let op = format!("rollback {}", n);
+        self.op_boundary(true, "rollback");
         match catch_unwind(AssertUnwindSafe(|| self.db().rollback(n))) {
             Ok(Ok(())) => {
                 if !expect_ok {
@@ -954,6 +1014,7 @@ impl<'a> Engine<'a> {
                 self.db = None;
             }
         }
+        self.op_boundary(false, "rollback");
         self.check_committed("rollback");
     }
 
@@ -1044,7 +1105,9 @@ impl<'a> Engine<'a> {
             f.fin = None;
         }
         self.db = None;
-        let _ = std::fs::remove_dir_all(&self.dir);
+        if !self.keep_dir {
+            let _ = std::fs::remove_dir_all(&self.dir);
+        }
     }
 }
 
